@@ -104,6 +104,24 @@ func reprCompatible(a, b reflect.Type) bool {
 	return a.ConvertibleTo(b) && b.ConvertibleTo(a) && a.Size() == b.Size()
 }
 
+func hasPointers(t reflect.Type) bool {
+	switch t.Kind() {
+	case reflect.Bool, reflect.Int, reflect.Int8, reflect.Int16, reflect.Int32, reflect.Int64, reflect.Uint, reflect.Uint8, reflect.Uint16, reflect.Uint32, reflect.Uint64, reflect.Uintptr,
+		reflect.Float32, reflect.Float64, reflect.Complex64, reflect.Complex128:
+		return false
+	case reflect.Array:
+		return t.Len() > 0 && hasPointers(t.Elem())
+	case reflect.Struct:
+		for i := 0; i < t.NumField(); i++ {
+			if hasPointers(t.Field(i).Type) {
+				return true
+			}
+		}
+		return false
+	}
+	return true
+}
+
 // layoutIssue says why S cannot be viewed as T ("" = field faithful and inside the value).
 func layoutIssue(s, t reflect.Type) (class, detail string) {
 	if t.Size() > s.Size() {
@@ -114,6 +132,14 @@ func layoutIssue(s, t reflect.Type) (class, detail string) {
 	}
 	for i := 0; i < t.NumField(); i++ {
 		tf, sf := t.Field(i), s.Field(i)
+		if !sf.IsExported() || !tf.IsExported() {
+			// padding / private bookkeeping on either side: not a shared property; what matters is that the words line up
+			// and that no pointer-bearing field is laid over pointer-free memory or the reverse
+			if tf.Offset != sf.Offset || tf.Type.Size() != sf.Type.Size() || hasPointers(tf.Type) != hasPointers(sf.Type) {
+				return "padding-mismatch", fmt.Sprintf("field %d: %s.%s (%s) over %s.%s (%s)", i, t.Name(), tf.Name, tf.Type, s.Name(), sf.Name, sf.Type)
+			}
+			continue
+		}
 		if tf.Offset != sf.Offset {
 			return "field-offset-differs", fmt.Sprintf("field %d: %s.%s at %d, %s.%s at %d", i, t.Name(), tf.Name, tf.Offset, s.Name(), sf.Name, sf.Offset)
 		}
@@ -260,6 +286,9 @@ func runView(c *Ctx, vc viewCase, idx int) {
 		srcV = reflect.ValueOf(item)
 	}
 	for i := 0; i < tT.NumField(); i++ {
+		if !tT.Field(i).IsExported() || !srcV.Type().Field(i).IsExported() {
+			continue // not a property the two types share
+		}
 		want := vmodel.Canon(srcV.Field(i).Interface(), vmodel.Exact)
 		got := vmodel.Canon(vv.Elem().Field(i).Interface(), vmodel.Exact)
 		if !want.Equal(got) {
@@ -280,7 +309,7 @@ func runView(c *Ctx, vc viewCase, idx int) {
 	g.Exact = true
 	for i := 0; i < tT.NumField(); i++ {
 		f := tT.Field(i)
-		if f.Name == "ID" || f.Name == "Type" {
+		if f.Name == "ID" || f.Name == "Type" || !f.IsExported() || !srcPtr.Elem().Type().Field(i).IsExported() {
 			continue
 		}
 		sh := firstShape(f.Type)
